@@ -111,6 +111,28 @@ theorem ml_is_nearest_decoder (G : List Nat) (n k : Nat) :
     ∀ x m', m' < 2 ^ k → weight n (x ^^^ encode G (mlDecode G n k x)) ≤ weight n (x ^^^ encode G m') :=
   ⟨fun x => (DecProofs.ml_is_nearest G n k x).1, fun x m' hm' => (DecProofs.ml_is_nearest G n k x).2 m' hm'⟩
 
+/-- **Reed–Muller code + Reed's majority decoder over any catalogue constellation**: at most `t` flipped code bits per block
+(placed anywhere) and every symbol displaced by less than half the minimum distance — the link returns the message.  The
+decoder hypothesis of `link_chanSub` is discharged by `C02.reed_decoder_corrects`. -/
+theorem link_reed (c : Kaira.Reed.ReedInst) (hc : c ∈ Generated.C02R.instances) (hk : 0 < c.k) (hn : 0 < c.n)
+    (i : Inst) (hi : i ∈ Generated.C14.instances) (hb : 0 < i.table.b)
+    (msgs : List (List Bool)) (es : List Nat) (ds : List (Int × Int))
+    (hm : ∀ b ∈ msgs, b.length = c.k) (hes : es.length = msgs.length) (hesn : ∀ e ∈ es, e < 2 ^ c.n)
+    (hw : ∀ e ∈ es, weight c.n e ≤ c.t)
+    (hdiv : (msgs.length * c.n) % i.table.b = 0)
+    (hds : ds.length = msgs.length * c.n / i.table.b) (hsmall : ∀ d ∈ ds, 4 * (d.1 * d.1 + d.2 * d.2) < i.lo) :
+    link c.k c.n c.G i.table (Kaira.Reed.reedDecode c.n c.G c.parts) (chanSub i.table ((es.map (bitsOf c.n)).flatten) ds)
+      msgs.flatten = some msgs.flatten := by
+  obtain ⟨hlab, hlo, hpair⟩ := C14.labels_and_spacing i hi
+  have hok := C02.reed_ok c hc
+  have hG : ∀ g ∈ c.G, g < 2 ^ c.n := by
+    unfold Kaira.Reed.reedOk at hok
+    simp only [Bool.and_eq_true, List.all_eq_true, decide_eq_true_eq] at hok
+    exact hok.1.2
+  exact link_chanSub c.k c.n hk hn c.G i.table hb i.lo hlo hpair hlab _ msgs es ds hm hes
+    (fun m => CodesProofs.encodeFrom_lt c.G 0 m c.n hG) hesn hdiv hds hsmall
+    (fun m e hm' he => C02.reed_decoder_corrects c hc m e hm' (hw e he))
+
 /-! ## non-vacuity: (7,4) Hamming-like generator, QPSK-like table, two blocks -/
 example : link 2 4 [0b0111, 0b1011] ⟨1, [⟨-1, 0, 0⟩, ⟨1, 0, 1⟩]⟩ (mlDecode [0b0111, 0b1011] 4 2) id
     [true, false, false, true] = some [true, false, false, true] := by decide +kernel
